@@ -3,7 +3,7 @@
     [Print Assumptions]. *)
 From Coq Require Import List ZArith.
 From Webp Require Import Base.Res Vp8l.Vp8lPixel Vp8l.Vp8lArr Vp8l.Vp8lPrefix Vp8l.Vp8lTransforms Vp8l.Vp8lSpec
-  Vp8l.Vp8lCanon Vp8l.Vp8lLut Vp8l.Vp8lLut2 Vp8l.Vp8lPacked Vp8l.Vp8lBitReader Vp8l.Vp8lBitReaderProof Vp8l.Vp8lBitReaderFill Vp8l.Vp8lEmit Vp8l.Vp8lEntropy Vp8l.Vp8lCodeLens Vp8l.Vp8lEmitDecode Vp8l.Vp8lWf Vp8l.Vp8lInPlace Vp8l.Vp8lKernels Vp8l.Vp8lTables Vp8l.Vp8lCacheDefer.
+  Vp8l.Vp8lCanon Vp8l.Vp8lLut Vp8l.Vp8lLut2 Vp8l.Vp8lPacked Vp8l.Vp8lPackedSpec Vp8l.Vp8lBitReader Vp8l.Vp8lBitReaderProof Vp8l.Vp8lBitReaderFill Vp8l.Vp8lEmit Vp8l.Vp8lEntropy Vp8l.Vp8lCodeLens Vp8l.Vp8lEmitDecode Vp8l.Vp8lWf Vp8l.Vp8lInPlace Vp8l.Vp8lKernels Vp8l.Vp8lTables Vp8l.Vp8lCacheDefer.
 From WebpGen Require Consts Tables Vp8lRoles.
 Import ListNotations.
 Open Scope Z_scope.
@@ -195,6 +195,21 @@ Theorem C03_packed_read_eq_lut_reads :
   packed_read (packed_build g r b a) w = seq_read_lut g r b a w.
 Proof. exact packed_read_eq_lut_reads. Qed.
 Print Assumptions C03_packed_read_eq_lut_reads.
+
+(** ... and both are the pixel read of the SPECIFICATION decoder ([spec_read_pixel] = the
+    literal / non-literal branch of Vp8lSpec.pixels_loop: read_symbol on the green code, then on
+    red, blue, alpha, pixel assembled by mkpx) on the bit list of the window: same symbol or same
+    ARGB word (the shifts-and-ors word of accumulateHCode = argb_of_px, channels < 256 because
+    the three alphabets have 256 symbols), same bits consumed. *)
+Theorem C03_packed_read_eq_spec_pixel :
+  forall lg lr lb la mg mr mb ma tg tr tb ta g r b a w res n k rest,
+  table_of lg mg tg g -> table_of lr mr tr r -> table_of lb mb tb b -> table_of la ma ta a ->
+  length lr = 256%nat -> length lb = 256%nat -> length la = 256%nat ->
+  mg + mr + mb + ma < 6 -> 0 <= w ->
+  packed_read (packed_build g r b a) w = (res, n) -> (Z.to_nat n <= k)%nat ->
+  spec_read_pixel tg tr tb ta (put_bits k w ++ rest) = Ok (res, put_bits (k - Z.to_nat n) (w / 2 ^ n) ++ rest).
+Proof. exact packed_read_eq_spec_pixel. Qed.
+Print Assumptions C03_packed_read_eq_spec_pixel.
 
 (** ... where walking the tree along a window is reading the symbol from the
     window's bit list (so [C03_prefix_roundtrip] applies to it). *)
